@@ -240,6 +240,11 @@ func c17Documents(rep *Report, worlds []*World, full bool) {
 		{SourceId: ccid(2, "0"), DestinationId: ccid(1, "channel-3"), Denom: "uusdc", AmountDispatched: amt(1, 0)},
 		{SourceId: ccid(4, "noble"), DestinationId: ccid(4, "noble"), Denom: "uusdc", AmountDispatched: amt(0, 1)},
 		{SourceId: ccid(1, "channel-0"), DestinationId: ccid(2, "01"), Denom: "uusdc", AmountDispatched: amt(1, 1)},
+		// denominations no transfer can record: the secondary index stores the denom as a NON-terminal key part
+		{SourceId: ccid(1, "channel-0"), DestinationId: ccid(2, "0"), Denom: "u\x00sdc", AmountDispatched: amt(1, 1)},
+		{SourceId: ccid(1, "channel-0"), DestinationId: ccid(2, "0"), Denom: "\x00", AmountDispatched: amt(1, 1)},
+		{SourceId: ccid(1, "channel-0"), DestinationId: ccid(2, "0"), Denom: strings.Repeat("d", 300), AmountDispatched: amt(1, 1)},
+		{SourceId: ccid(1, "channel-0"), DestinationId: ccid(2, "0"), Denom: "ibc/" + strings.Repeat("A", 64), AmountDispatched: amt(1, 1)},
 	}
 	cntMenu := []dispatchertypes.DispatchCountEntry{
 		{SourceId: ccid(1, "channel-0"), DestinationId: ccid(2, "0"), Count: 3},
